@@ -190,6 +190,8 @@ FOCUSED = [
     ('crlf-brackets', ['\r', '\n', '[', ']', 'a', ' '], {}, ['string_bracket'], 5, 6),
     ('parens', ['(', ')', '\n', '\r', 'a'], {}, ['string_parens'], 5, 6),
     ('directives', ['#', 'a', ':', '+', ' ', '{'], {}, ['colon_operator', 'plus_operator'], 5, 6),
+    # the byte-order mark is skipped on line 1 only: every position of it relative to tokens, strings, line ends and cuts
+    ('bom', ['\ufeff', 'a', ' ', '"', '\n', '{'], {}, ['string_bracket'], 5, 6),
 ]
 
 
